@@ -10,7 +10,7 @@
 #include <string.h>
 #include <stdlib.h>
 
-#define MAXBLK 40
+#define MAXBLK 1100
 static uint8_t KEYS[2][48];
 static uint8_t in_[MAXBLK * 16 + 64], out_[3][MAXBLK * 16 + 64], exp_[MAXBLK * 16 + 64], tw_[MAXBLK * 8 + 64], tmp_[MAXBLK * 16 + 64];
 
@@ -229,6 +229,12 @@ static void run_c07(void)
                             for (ip = 0; ip < 2; ++ip)
                                 c07_case_g(&kc[ki], be, nblk, dir, fam, ip);
                 for (dir = 0; dir < (c == CK_MANTIS ? 1 : 2); ++dir) c07_sweep(&kc[ki], be, dir);
+                {   /* larger counts: many batch iterations plus a remainder */
+                    static const int big[] = {31, 32, 33, 63, 64, 65, 127, 128, 129, 255, 256, 257, 1025};
+                    size_t bi;
+                    for (bi = 0; bi < sizeof(big) / sizeof(big[0]); ++bi)
+                        for (dir = 0; dir < (c == CK_MANTIS ? 1 : 2); ++dir) c07_case_g(&kc[ki], be, big[bi], dir, (int)(bi & 1), (int)(bi & 1) ^ 1);
+                }
                 {
                     static const int bad[] = {1, -1, +1, 0};  /* 1, B-1, B+1, P*B+1 */
                     int sizes[4], i;
